@@ -371,7 +371,7 @@ static READS: std::sync::atomic::AtomicU64 = std::sync::atomic::AtomicU64::new(0
 static NONTRIVIAL: std::sync::atomic::AtomicU64 = std::sync::atomic::AtomicU64::new(0);
 
 pub fn configs(tier: Tier) -> (Vec<Cfg>, usize) {
-    let lens = vec![0, 1, 2, 3, 7, 1000];
+    let lens = vec![0, 1, 2, 3, 7, 1000, u64::MAX];
     let mut v = vec![];
     let depth = match tier {
         Tier::Quick => 7,
